@@ -313,7 +313,7 @@ var debugHook func(*cluster)
 func (c *cluster) probe(b, s string) (map[string]any, error) {
 	x := c.nodes[b]
 	for _, n := range c.names {
-		c.nodes[n].nd.Unicasts = nil
+		c.nodes[n].nd.TakeUnicasts()
 	}
 	payload := fmt.Sprintf("probe-%d", atomic.AddInt64(&probeSeq, 1))
 	x.mid++
@@ -331,13 +331,15 @@ func (c *cluster) probe(b, s string) (map[string]any, error) {
 		return nil, fmt.Errorf("probe publish: %v", err)
 	}
 	count(b, pk)
-	// the peers flush their frames on a 5 ms ticker: wait for the frames, then hand them to the destinations
+	// the publish was handled before the PINGRESP: the frames sit in the queues of the peers (flushed by a 5 ms ticker in
+	// production); flush them now, so that the probe does not depend on timing
 	fwd := map[string]bool{}
-	deadline := time.Now().Add(24 * time.Millisecond)
-	for time.Now().Before(deadline) {
-		time.Sleep(8 * time.Millisecond)
+	for _, n := range c.names {
+		if p := x.b.Svc.VerifCluster().VerifPeer(c.nodes[n].peer); n != b && p != nil {
+			p.VerifFlush()
+		}
 	}
-	for _, u := range x.nd.Unicasts {
+	for _, u := range x.nd.TakeUnicasts() {
 		dst, ok := c.byPeer[uint64(u.Src)]
 		if !ok {
 			continue
